@@ -21,6 +21,7 @@ structure St where
   now : Int := 0
   chain : List (String × Chain) := []
   future : List (String × Int × Int) := []   -- terms waiting for the close of a running contract: (len, speed)
+  failNext : Bool := false                   -- the node refuses the next eth_call
   ctl : List (String × Ctl) := []
   up : Bool := false
 
@@ -43,7 +44,7 @@ def setCh (st : St) (n : String) (c : Chain) : St := { st with chain := st.chain
 def updCtl (st : St) (n : String) (f : Ctl → Ctl) : St := { st with ctl := st.ctl.map fun x => if x.1 = n then (n, f x.2) else x }
 def settleAll (st : St) : St := { st with ctl := st.ctl.map fun (n, c) => (n, settle c st.now) }
 
-def step (st : St) (op : List String) : St × List String :=
+def stepOk (st : St) (op : List String) : St × List String :=
   match op with
   | "world" :: _ => (st, [])
   | "chain" :: n :: rest =>
@@ -94,6 +95,24 @@ def step (st : St) (op : List String) : St × List String :=
     let st1 := settleAll { st with now := st.now + parseInt s }
     (st1, lines st1)
   | _ => (st, ["bad-op"])
+
+/-- the chain changes as the op says; the handler of its event cannot read it -/
+def stepNoRpc (st : St) (op : List String) : St × List String :=
+  -- the chain table moves exactly as in `stepOk` (discarding what the handler did), then the blind handler runs
+  let chainAfter := (stepOk st op).1
+  let st0 : St := { st with chain := chainAfter.chain, future := chainAfter.future, failNext := false }
+  let st1 := settleAll st0
+  match op with
+  | "purchased" :: n :: _ => let st2 := updCtl st1 n onPurchasedNoRpc; (st2, lines st2)
+  | ["closed", n] => let st2 := updCtl st1 n onClosedNoRpc; (st2, lines st2)
+  | "destupdate" :: n :: _ => let st2 := updCtl st1 n onDestUpdatedNoRpc; (st2, lines st2)
+  | "termsupdate" :: n :: _ => let st2 := updCtl st1 n onTermsUpdatedNoRpc; (st2, lines st2)
+  | _ => stepOk { st with failNext := false } op
+
+def step (st : St) (op : List String) : St × List String :=
+  match op with
+  | ["rpcfail", _] => ({ st with failNext := true }, [])
+  | _ => if st.failNext then stepNoRpc st op else stepOk st op
 
 def machine : Machine := { σ := St, init := {}, step := step }
 end PRV.Driver.C08m
